@@ -31,6 +31,8 @@ type c20Op struct {
 	B     int    `json:"b"`
 	Point string `json:"point"`
 	Nth   int    `json:"nth"`
+	// Lisp: the clear is made the way the function (clear-history) makes it, through the stash embedded in the history
+	Lisp bool `json:"lisp"`
 }
 
 type c20Stim struct {
@@ -53,7 +55,9 @@ type c20Death struct{}
 // the pool: multi-line forms, non-ASCII (inside strings: the stash parses what it loads and slip's reader takes no
 // non-ASCII character outside a string), a form that needs several lines
 var c20Pool = [][]string{
-	{"(one)"}, {"(two", "  2)"}, {"(trois \"é ü\")"}, {"(four)"}, {"(five", " 5", " five)"}, {"(six \"s\")"}, {"(sept \"😀\")"},
+	// (forms with a parenthesis that is not code: inside a string, as a character, in a comment)
+	{"(one)"}, {"(two", "  2)"}, {"(trois \"é ü\")"}, {"(format t \"~a(\" 4)"}, {"(five ; (see below", " 5", " five)"}, {"(char= c #\\()"}, {"(sept \"😀\")"},
+	{"(eight \")\" #\\))"},
 }
 
 // probe forms for recorded findings: 101 a tab inside a line, 102 leading and trailing blanks
@@ -208,7 +212,13 @@ func c20(args []string) {
 				ev["crashed"] = guarded(crash, pending, func() { hist.Add(form) })
 			case "clear":
 				pending := func(k int) []byte { return hist.Nth(hist.Size() - k).TabAppend(nil) }
-				ev["crashed"] = guarded(crash, pending, func() { hist.Clear(op.A, op.B) })
+				ev["crashed"] = guarded(crash, pending, func() {
+					if hl, ok := hist.(*repl.History); ok && op.Lisp {
+						hl.Stash.Clear(op.A, op.B) // what cleanStaskCall(f, &TheHistory.Stash, ...) of (clear-history) does
+						return
+					}
+					hist.Clear(op.A, op.B)
+				})
 			case "limit":
 				// (setq *repl-history-limit* n): History.SetLimit on the running session
 				curLimit = op.F
